@@ -969,11 +969,16 @@ def c03_classes(stmts):
        F138: exit repeat is a direct statement of a tell block (the block's statements are a list of their own: F23's situation)."""
     out = set()
 
-    def walk(items, ctx, fixed, ifdepth=0, rescanned=False):
+    def walk(items, ctx, fixed, ifdepth=0, visits=1):
         """ifdepth: number of if branches between this list and the nearest enclosing loop body (or the handler);
-        rescanned: this list is a loop body that the heuristic visits more than once (a loop nested in an if branch is scanned when
-        the enclosing list is scanned and again when the extracted branch is: the second visit finds the `jz` the first one skipped)"""
+        visits: how often the heuristic scans the nearest enclosing loop / tell body: once with the flat list it is first met in,
+        once more for every if branch extracted around it (1 + the ifdepth at the loop); a loop lying DIRECTLY in a loop body is
+        scanned again on every further visit of that body. Every visit converts the ifs of the list up to and including the next
+        `if ... exit repeat`, whose exit jump it takes for an else jump (F24): an if with `visits` or more such ifs before it in
+        the list stays raw."""
         n = len(items)
+        need = visits if ctx in ("loop", "tell") else 1
+        before = 0
         for i, it in enumerate(items):
             if isinstance(it, _X):
                 if ctx == "loop":
@@ -988,28 +993,27 @@ def c03_classes(stmts):
                     out.add("F126")
             elif it != "s":
                 k = it[0]
-                if k in ("if", "ifelse") and not (ctx in ("loop", "tell") and rescanned):
-                    if any((not isinstance(e, _X)) and e != "s" and e[0] == "if" and _c03_last_is_exit(e) for e in items[:i]):
-                        out.add("F24")
+                if k in ("if", "ifelse") and before >= need:
+                    out.add("F24")
                 if k == "if":
                     f = _c03_flat(it[1]); fx = set(fixed)
                     if len(f) >= 2 and isinstance(f[-2], _X):
                         fx.add(f[-2])
-                    walk(it[1], "then", fx, ifdepth + 1, rescanned)
+                    walk(it[1], "then", fx, ifdepth + 1, visits)
+                    if _c03_last_is_exit(it):
+                        before += 1
                 elif k == "ifelse":
                     f = _c03_flat(it[1]) + ["ej"]; fx = set(fixed)
                     if len(f) >= 2 and isinstance(f[-2], _X):
                         fx.add(f[-2])
-                    walk(it[1], "thenE", fx, ifdepth + 1, rescanned)
+                    walk(it[1], "thenE", fx, ifdepth + 1, visits)
                     f = _c03_flat(it[2]); fx2 = set(fixed)
                     if len(f) >= 2 and isinstance(f[-2], _X):
                         fx2.add(f[-2])
-                    walk(it[2], "else", fx2, ifdepth + 1, rescanned)
-                elif k == "tell":
-                    # the statements of a tell block are a list of their own (scanned like a loop body, with the enclosing loop)
-                    walk(it[1], "tell", set(), 0, rescanned or ifdepth > 0)
+                    walk(it[2], "else", fx2, ifdepth + 1, visits)
                 else:
-                    walk(it[1], "loop", set(), 0, rescanned or ifdepth > 0)
+                    # the statements of a loop / tell block are a list of their own
+                    walk(it[1], "tell" if k == "tell" else "loop", set(), 0, 1 + ifdepth + (visits - 1 if ifdepth == 0 else 0))
     walk(_c03_box(stmts), "top", set())
     return sorted(out)
 
